@@ -238,6 +238,29 @@ func runC15(e *Env) error {
 			mu.Unlock()
 			c15RoundTrip(e, &d, one, "database type "+ts, viol, &mu)
 		}
+		// types constructed the way an inspection does (not through ParseType): no parameter where the database has none
+		for i, t := range c15Constructed(d.name) {
+			one := schema.New(d.schema)
+			one.AddTables(schema.NewTable("t").AddColumns(schema.NewColumn("c").SetType(t).SetNull(true)))
+			id := fmt.Sprintf("constructed type %d (%T %+v)", i, t, t)
+			mu.Lock()
+			e.Res.Count(d.name+"/constructed/"+id, true, "constructed:"+d.name)
+			mu.Unlock()
+			if s1, err := d.format(t); err == nil {
+				if t1, err := d.parse(s1); err == nil {
+					if s2, err := d.format(t1); err != nil || s2 != s1 {
+						viol("failing-input", "format-parse-not-fixpoint", fmt.Sprintf("%s: %s formats as %q, which parses and formats as %q (%v)", d.name, id, s1, s2, err), "Props.C15 type fixpoint", map[string]any{"dialect": d.name, "type": id})
+					}
+				}
+			}
+			c15RoundTrip(e, &d, one, id, viol, &mu)
+		}
+		for i, one := range c15CharsetSchemas(&d) {
+			mu.Lock()
+			e.Res.Count(fmt.Sprintf("%s/charsets/%d", d.name, i), true, "charset-grid:"+d.name)
+			mu.Unlock()
+			c15RoundTrip(e, &d, one, fmt.Sprintf("charset/collation grid %d", i), viol, &mu)
+		}
 		for _, t := range c15AttrTables(&d, hx.NewRand(e.Seed, "c15-"+d.name)) {
 			one := schema.New(d.schema)
 			t.Schema = one
@@ -360,6 +383,9 @@ func c15RoundTrip(e *Env, d *dialectAPI, one *schema.Schema, id string, viol fun
 		viol("failing-input", "marshalled-hcl-not-evaluable", fmt.Sprintf("%s %s: EvalHCLBytes rejects the marshalled document: %v\n%s", d.name, id, trunc(err.Error(), 300), trunc(string(hcl), 600)), "Props.C15 round trip", rep)
 		return
 	}
+	// re-marshal before diffing: the differs complete the attributes of their arguments in place
+	// (e.g. MySQL derives a column's charset from its collation)
+	hcl2, err2 := d.marshal(&back)
 	for _, dir := range []string{"original->evaluated", "evaluated->original"} {
 		a, b := one, &back
 		if dir == "evaluated->original" {
@@ -376,8 +402,9 @@ func c15RoundTrip(e *Env, d *dialectAPI, one *schema.Schema, id string, viol fun
 			}
 		}
 	}
-	hcl2, err := d.marshal(&back)
-	if err != nil || string(hcl2) != string(hcl) {
+	if err2 != nil || string(hcl2) != string(hcl) {
+		err := err2
+		rep["hcl"], rep["hcl_again"] = string(hcl), string(hcl2)
 		viol("failing-input", "remarshal-differs", fmt.Sprintf("%s %s: marshalling the evaluated schema gives other bytes (%v): %s", d.name, id, err, firstDiff(string(hcl), string(hcl2))), "Props.C15 remarshal", rep)
 	}
 }
@@ -560,4 +587,64 @@ func c15AttrTables(d *dialectAPI, r *hx.Rand) []*schema.Table {
 	}
 	out = append(out, t3)
 	return out
+}
+
+// c15CharsetSchemas: MySQL charset / collation of schema, table and column in every relation to
+// the parent (absent, equal, same charset with another collation, another charset, collation only).
+func c15CharsetSchemas(d *dialectAPI) []*schema.Schema {
+	if d.name != "mysql" {
+		return nil
+	}
+	type cc struct{ cs, co string }
+	variants := []cc{{"", ""}, {"utf8mb4", "utf8mb4_general_ci"}, {"utf8mb4", "utf8mb4_bin"}, {"latin1", "latin1_swedish_ci"}}
+	var out []*schema.Schema
+	for _, sv := range []cc{{"", ""}, {"utf8mb4", "utf8mb4_general_ci"}} {
+		for _, tv := range variants {
+			s := schema.New(d.schema)
+			if sv.cs != "" {
+				s.SetCharset(sv.cs).SetCollation(sv.co)
+			}
+			t := schema.NewTable("t")
+			if tv.cs != "" {
+				t.SetCharset(tv.cs)
+			}
+			if tv.co != "" {
+				t.SetCollation(tv.co)
+			}
+			for i, cv := range variants {
+				c := schema.NewColumn(fmt.Sprintf("c%d", i)).SetType(&schema.StringType{T: "varchar", Size: 20}).SetNull(true)
+				if cv.cs != "" {
+					c.SetCharset(cv.cs)
+				}
+				if cv.co != "" {
+					c.SetCollation(cv.co)
+				}
+				t.AddColumns(c)
+			}
+			s.AddTables(t)
+			out = append(out, s)
+		}
+	}
+	return out
+}
+
+func c15Constructed(dialect string) []schema.Type {
+	switch dialect {
+	case "postgres":
+		return []schema.Type{
+			&postgres.BitType{T: "bit varying"}, &postgres.BitType{T: "bit", Len: 1}, &postgres.BitType{T: "bit varying", Len: 7},
+			&schema.StringType{T: "character varying"}, &schema.StringType{T: "character", Size: 1}, &schema.StringType{T: "text"},
+			&schema.DecimalType{T: "numeric"}, &schema.DecimalType{T: "numeric", Precision: 8}, &schema.DecimalType{T: "numeric", Precision: 8, Scale: 3},
+			&schema.TimeType{T: "timestamp without time zone"}, &schema.TimeType{T: "time with time zone", Precision: ip(0)},
+			&postgres.IntervalType{T: "interval"}, &postgres.IntervalType{T: "interval", F: "second", Precision: ip(2)},
+			&postgres.ArrayType{T: "bit varying[]", Type: &postgres.BitType{T: "bit varying"}},
+		}
+	case "mysql":
+		return []schema.Type{
+			&schema.DecimalType{T: "decimal", Precision: 10}, &schema.StringType{T: "varchar", Size: 1}, &schema.StringType{T: "text"},
+			&schema.BinaryType{T: "varbinary", Size: ip(1)}, &schema.TimeType{T: "datetime"}, &schema.TimeType{T: "timestamp", Precision: ip(3)},
+			&mysql.BitType{T: "bit", Size: 1}, &schema.FloatType{T: "float"}, &schema.FloatType{T: "double"},
+		}
+	}
+	return []schema.Type{&schema.StringType{T: "text"}, &schema.DecimalType{T: "numeric"}, &schema.DecimalType{T: "decimal", Precision: 10, Scale: 5}, &schema.FloatType{T: "real"}, &schema.BinaryType{T: "blob"}}
 }
